@@ -130,11 +130,13 @@ qb_array_index(struct qb_array * a, int32_t idx, void **element_out)
 		if (a->autogrow_elements == 0) {
 			QB_VERIF_POINT(QB_VP_ARRAY_UNLOCK, a, 0, 0);
 			(void)qb_thread_unlock(a->grow_lock);
+			QB_VERIF_POINT(QB_VP_ARRAY_UNLOCKED, a, 0, 0);
 			return -ERANGE;
 		} else {
 			/* qb_array_grow gets the lock */
 			QB_VERIF_POINT(QB_VP_ARRAY_UNLOCK, a, 0, 0);
 			(void)qb_thread_unlock(a->grow_lock);
+			QB_VERIF_POINT(QB_VP_ARRAY_UNLOCKED, a, 0, 0);
 			rc = qb_array_grow(a, idx + 1);
 			if (rc != 0) {
 				return rc;
@@ -169,6 +171,7 @@ qb_array_index(struct qb_array * a, int32_t idx, void **element_out)
 		bin = a->bin[b];
 		QB_VERIF_POINT(QB_VP_ARRAY_UNLOCK, a, 0, 0);
 		(void)qb_thread_unlock(a->grow_lock);
+		QB_VERIF_POINT(QB_VP_ARRAY_UNLOCKED, a, 0, 0);
 		if (bin_alloced && a->new_bin_cb) {
 			a->new_bin_cb(a, b);
 		}
@@ -177,6 +180,7 @@ qb_array_index(struct qb_array * a, int32_t idx, void **element_out)
 		bin = a->bin[b];
 		QB_VERIF_POINT(QB_VP_ARRAY_UNLOCK, a, 0, 0);
 		(void)qb_thread_unlock(a->grow_lock);
+		QB_VERIF_POINT(QB_VP_ARRAY_UNLOCKED, a, 0, 0);
 	}
 
 	elem = ELEM_NUM_GET(idx);
@@ -190,6 +194,7 @@ unlock_error:
 
 	QB_VERIF_POINT(QB_VP_ARRAY_UNLOCK, a, 0, 0);
 	(void)qb_thread_unlock(a->grow_lock);
+	QB_VERIF_POINT(QB_VP_ARRAY_UNLOCKED, a, 0, 0);
 	return rc;
 }
 
@@ -216,6 +221,7 @@ qb_array_num_bins_get(struct qb_array * a)
 	bins = a->num_bins;
 	QB_VERIF_POINT(QB_VP_ARRAY_UNLOCK, a, 0, 0);
 	(void)qb_thread_unlock(a->grow_lock);
+	QB_VERIF_POINT(QB_VP_ARRAY_UNLOCKED, a, 0, 0);
 	return bins;
 }
 
@@ -243,6 +249,7 @@ qb_array_grow(struct qb_array * a, size_t max_elements)
 	if (max_elements <= a->max_elements) {
 		QB_VERIF_POINT(QB_VP_ARRAY_UNLOCK, a, 0, 0);
 		(void)qb_thread_unlock(a->grow_lock);
+		QB_VERIF_POINT(QB_VP_ARRAY_UNLOCKED, a, 0, 0);
 		return 0;
 	}
 	a->max_elements = max_elements;
@@ -254,6 +261,7 @@ qb_array_grow(struct qb_array * a, size_t max_elements)
 	}
 	QB_VERIF_POINT(QB_VP_ARRAY_UNLOCK, a, 0, 0);
 	(void)qb_thread_unlock(a->grow_lock);
+	QB_VERIF_POINT(QB_VP_ARRAY_UNLOCKED, a, 0, 0);
 	return rc;
 }
 
